@@ -1,6 +1,6 @@
 SPECIFICATION Spec
 INVARIANTS C12_Routing C12_Version C12_FollowLeader C12_FollowLeaderRealTime C12_RefreshWithinTTL C12_CacheFilter
   C06t_OwnResponse C06t_NoReuseAfterFailure C06t_ReleaseOnlyAfterComplete
-  C17t_CutIsError C17t_NextCallSucceeds C17t_NoPanicNoHang C09t_CancelPrompt C09t_ContextError
+  C17t_CutIsError C17t_NextCallSucceeds C17t_NoPanicNoHang C09t_CancelPrompt C09t_ContextError C09t_ClosedPoolConnsClose
 POSTCONDITION TraceAccepted
 CHECK_DEADLOCK FALSE
